@@ -26,6 +26,9 @@ sqrtf = z3.Function("sqrtf", z3.RealSort(), z3.RealSort())
 powf = z3.Function("powf", z3.RealSort(), z3.IntSort(), z3.RealSort())
 
 
+POW_FACTS = []  # definitional facts about powf applications (base > 0 -> power > 0; exponent 0 -> 1)
+
+
 class Unsupported(Exception):
     pass
 
@@ -606,7 +609,10 @@ def binop(op, a, b, need):
                 t = t * x
             return mk(t, fa)
         if inty(b):
-            return mk(powf(x, to_int_term(b)), fa)
+            app = powf(x, to_int_term(b))
+            POW_FACTS.append(z3.Implies(x > 0, app > 0))
+            POW_FACTS.append(z3.Implies(to_int_term(b) == 0, app == 1))
+            return mk(app, fa)
         raise Unsupported("non-integer exponent")
     raise Unsupported(f"binop {op}")
 
